@@ -39,6 +39,28 @@ func tokensMatch(laid *gen.Laid) string {
 	return ""
 }
 
+// refTokensMatch: the reference tokenizer reads the laid-out source as the
+// tokens the program was printed as (a check of the generator itself).
+func refTokensMatch(laid *gen.Laid) string {
+	got := reftok.Scan(laid.Src)
+	if len(got) != len(laid.Toks) {
+		return fmt.Sprintf("reference tokenizer yields %d tokens, the program was printed as %d", len(got), len(laid.Toks))
+	}
+	for i, g := range got {
+		w := laid.Toks[i]
+		if g.Kind != w.Kind || g.Start != laid.Spans[i][0] || g.End != laid.Spans[i][1] {
+			return fmt.Sprintf("token %d: reference %v [%d,%d), printed kind %d %v %q", i, g.Kind, g.Start, g.End, w.Kind, laid.Spans[i], w.Text)
+		}
+		switch w.Kind {
+		case reftok.Ident, reftok.QIdent, reftok.String:
+			if g.Value != w.Value {
+				return fmt.Sprintf("token %d %q: reference value %q, intended %q", i, w.Text, g.Value, w.Value)
+			}
+		}
+	}
+	return ""
+}
+
 // exprCase: a source that is one expression, with the canonical tree expected.
 type exprCase struct {
 	Src   string `json:"src"`
